@@ -108,7 +108,7 @@ CHECKS = {
     "C02": Chk("C02", GEN_RULE + "Non-trivial = action blocked by exactly one network-level gate (discovery, pivot, subnet rule, "
                "host deny-list, target access) or an exploit that passes while at least one attacker position is blocked; "
                "distinct by (scenario, state, action, draw side).",
-               O.c02, doc_kw=dict(deny_rich=True), assumptions=ASSUME_COMMON + [
+               O.c02, doc_kw=dict(deny_rich=True, many=0.3), assumptions=ASSUME_COMMON + [
                    "the error flag reported for a blocked action is not constrained (the statement does not name it)"]),
     "C03": Chk("C03", GEN_RULE + "Non-trivial = visited state with a compromised host in a non-public subnet, or a subnet scan "
                "that newly discovers a host; distinct by (scenario, state[, action]).",
